@@ -171,12 +171,17 @@ def run(ctx):
             f.write(data3)
         real_open = builtins.open
         for fail_at in (2, 3, 5):
+            armed = [False]
+
             def flaky_open(file, mode="r", *a, _fa=fail_at, **k):
-                if mode == "rb" and isinstance(file, str) and os.path.abspath(file) == fp3:
+                # a TRANSIENT fault: only the first time the file is opened (a retry finds the storage healthy again)
+                if mode == "rb" and isinstance(file, str) and os.path.abspath(file) == fp3 and armed[0]:
+                    armed[0] = False
                     return io.BufferedReader(FlakyRaw(file, "rb", fail_at=_fa), buffer_size=k.get("buffering", -1) if k.get("buffering", -1) > 0 else io.DEFAULT_BUFFER_SIZE)
                 return real_open(file, mode, *a, **k)
             for entry, call in (("hash_file", lambda: {"md5": Hh.hash_file(fp3, "md5")}), ("multiple_format_hash_file", lambda: Hh.multiple_format_hash_file(fp3, ["md5", "xxh64"]))):
                 builtins.open = flaky_open
+                armed[0] = True
                 try:
                     got = call()
                 except OSError:
